@@ -849,13 +849,11 @@ func describeJoin(p *core.Prog, fn *ssa.Function, args []ssa.Value, j *ssa.Call)
 	} else if _, f, ok := core.FieldOf(a0); ok && strings.Contains(strings.ToLower(f), "path") {
 		base = "base"
 	}
-	sp, _, ok := core.CallResult(a1)
-	if !ok || !core.InfoOf(&sp.Call).Is("fmt.Sprintf") {
+	format, fargs, ok := core.FormatOf(a1)
+	if !ok || len(fargs) == 0 || (len(fargs) == 1 && format == "%s") {
 		return "join(" + base + ", other:" + core.ValName(a1) + ")"
 	}
-	format, _ := core.ConstString(sp.Call.Args[0])
-	fargs, ok := core.VariadicArgs(sp.Call.Args[1])
-	if !ok || len(fargs) != 2 {
+	if len(fargs) != 2 {
 		return fmt.Sprintf("join(%s, fmt(%q, ?))", base, format)
 	}
 	f0, f1 := core.Strip(fargs[0]), core.Strip(fargs[1])
